@@ -1810,6 +1810,19 @@ def a_ipv4_new(ev, st, info, args):
     return [(st, ipv4(('arr', tuple(args))))]
 
 
+@ax('std::net::Ipv6Addr::new', note='Ipv6Addr::new(a..h) has octets a.to_be_bytes() ++ .. ++ h.to_be_bytes()')
+def a_ipv6_new(ev, st, info, args):
+    return [(st, ipv6(T.mk_concat([T.mk_tobytes('tobe', 2, a) for a in args])))]
+
+
+@ax('<std::net::Ipv6Addr as std::convert::From<[u16; 8]>>::from', note='Ipv6Addr::from(segments)')
+def a_ipv6_from_segments(ev, st, info, args):
+    a = args[0]
+    if a[0] == 'arr' and len(a[1]) == 8:
+        return [(st, ipv6(T.mk_concat([T.mk_tobytes('tobe', 2, x) for x in a[1]])))]
+    return [(st, ('opaque', 'Ipv6Addr::from(segments) of an unknown array'))]
+
+
 @ax('<std::net::Ipv4Addr as std::convert::From<[u8; 4]>>::from', note='Ipv4Addr::from(octets)')
 def a_ipv4_from(ev, st, info, args):
     return [(st, ipv4(args[0]))]
